@@ -175,6 +175,12 @@ def handlers : List (String × (List String → String)) := [
   ("cfg_isspace", fun a => match a with
     | [cp] => encBool (isSpace (Char.ofNat (decNat cp)))
     | _ => "bad-args"),
+  ("cfg_safe_name", fun a => match a with
+    | [lower, s] => encBool (safeName (decBool lower) (decStr s))
+    | _ => "bad-args"),
+  ("cfg_safe_value", fun a => match a with
+    | [interp, s] => encBool (safeValue (decBool interp) (decStr s))
+    | _ => "bad-args"),
   ("cfg_strip", fun a => match a with
     | [s] => encStr (strip (decStr s))
     | _ => "bad-args")
